@@ -28,6 +28,8 @@ func main() {
 	switch cmd {
 	case "core-replay":
 		coreReplay(args)
+	case "cmd-run":
+		cmdRun(args)
 	case "conv-run":
 		convRun(args)
 	case "events-replay":
